@@ -131,6 +131,19 @@ Theorem C04_app_judgement_transfer : forall sc t, JudgeC04P.profile_C04b sc = tr
 Proof. exact JudgeC04P.C04_app_judgement_transfer. Qed.
 
 
+(* ---- source tie (DESIGN 11.8): definitions REGENERATED from the Rust source text by bin/rs2v.py on every run
+   (coq/Generated/*.v) coincide with the hand-written model ---- *)
+From BEI Require Generated.ValueSrc Generated.EventsSrc Generated.TrackerSrc Proofs.SrcTieP.
+Theorem C04_source_combine : forall t o acc, SrcTieP.teq (TrackerSrc.combine_src t o acc) (Tracker.tr_combine t o acc).
+Proof. exact SrcTieP.combine_tie. Qed.
+
+Theorem C04_source_overwrite : forall t o, SrcTieP.teq (TrackerSrc.overwrite_src t o) (Tracker.tr_overwrite t o).
+Proof. exact SrcTieP.overwrite_tie. Qed.
+
+Theorem C04_source_convert : forall v d, Value.veq (ValueSrc.convert_src v d) (Value.convert d v).
+Proof. exact SrcTieP.convert_tie. Qed.
+
+
 Print Assumptions C04_modifiers_in_order.
 Print Assumptions C04_conditions_in_order.
 Print Assumptions C04_own_tracker.
@@ -191,3 +204,6 @@ Qed.
 Print Assumptions C04_every_evaluation_of_a_frame.
 Print Assumptions C04_app_judgement_sound.
 Print Assumptions C04_app_judgement_transfer.
+Print Assumptions C04_source_combine.
+Print Assumptions C04_source_overwrite.
+Print Assumptions C04_source_convert.
